@@ -98,9 +98,13 @@ type Detail struct {
 	Kind string `json:"kind"` // str | int | dur | nested
 	S    string `json:"s,omitempty"`
 	N    int64  `json:"n,omitempty"`
+	Rep  int    `json:"rep,omitempty"` // str/nested: S repeated Rep times (details of several KiB)
 }
 
 func (d Detail) Msg() proto.Message {
+	if d.Rep > 1 {
+		d.S = strings.Repeat(d.S, d.Rep)
+	}
 	switch d.Kind {
 	case "int":
 		return wrapperspb.Int64(d.N)
